@@ -102,3 +102,17 @@ Proof.
   unfold is_std, ws_function. cbn [fe_ns fe_fn orb]. rewrite Ha. cbn [nodup forallb andb Nat.eqb negb].
   apply (cards_ws8 _ _ (f_cards f) _ [] Hcards).
 Qed.
+
+Theorem fragments_well_scoped8 M :
+  (in_f1 M = true -> in_f2 M = true) /\
+  (in_f2 M = true -> in_f3 M = true) /\
+  (in_f3 M = true -> in_f4 M = true) /\
+  (in_f4 M = true -> in_f5 M = true) /\
+  (in_f5 M = true -> in_f6 M = true) /\
+  (in_f6 M = true -> in_f7 M = true) /\
+  (in_f7 M = true -> in_f8 M = true) /\
+  (in_f8 M = true -> well_scoped M = true).
+Proof.
+  destruct (fragments_well_scoped M) as (A1 & A2 & A3 & A4 & A5 & A6 & _).
+  repeat (split; [assumption|]). split; [apply in_f7_f8 | apply in_f8_well_scoped].
+Qed.
